@@ -9,4 +9,5 @@ def run(ck):
     accepted = codec.r9_color_to_pixel(ck, P)
     status.r19_4_depths(ck, P, accepted)
     status.r19_6_op_reduction(ck, P)
+    status.r_byte_budget(ck, P, 'C19-R7', tail=True)
     geometry.r2_raw_writers_bounded(ck, P, rows=False)
